@@ -209,18 +209,30 @@ def judge_bin(ctx, vec, rng, stats):
     f = [rng.randint(1, 99) for _ in vec['nat']]
     spec = np.array(f, dtype=float) / 64.0
     cls0 = bin_class(vec)
-    v = dict(vec, scale=scale, f=f, kind='bin')
-    clip = clip_native_to_wngrid(nat, oc)
+    # the requested grid is a set of bins: it is handed over in both legal orders (ascending wavenumber, and descending =
+    # ascending wavelength); the spec's clip and binning are functions of the set, so both orders must give its values
+    for order in ('asc', 'desc'):
+        _judge_bin_order(ctx, vec, stats, nat, oc, ow, f, spec, scale, cls0, order)
+
+
+def _judge_bin_order(ctx, vec, stats, nat, oc, ow, f, spec, scale, cls0, order):
+    from taurex.util.util import clip_native_to_wngrid
+    from taurex.binning import FluxBinner
+    first = order == 'asc'
+    osfx = '' if first else ':req=desc'
+    oc_req, ow_req = (oc, ow) if first else (oc[::-1].copy(), ow[::-1].copy())
+    v = dict(vec, scale=scale, f=f, kind='bin', order=order)
+    clip = clip_native_to_wngrid(nat, oc_req)
     # the returned grid is a contiguous part of the native grid that keeps every point contributing to a bin
     needed = [i for i in range(len(nat)) if any(vec['wfull'][j][i] > 0 for j in range(len(oc)))]
     idx = [int(np.where(nat == x)[0][0]) for x in clip if x in nat]
     ok = len(idx) == len(clip) and idx == list(range(idx[0], idx[0] + len(idx))) if len(clip) else True
     keeps = all(i in idx for i in needed) if GWholeGap(vec) else True
-    ctx.verdict('clip_retains_needed_points', bool(ok and keeps), cls='clip:%s' % (cls0 or 'gap<W'),
+    ctx.verdict('clip_retains_needed_points', bool(ok and keeps), cls='clip:%s%s' % (cls0 or 'gap<W', osfx),
                 detail='native %r obs %r clip %r needed idx %r' % (vec['nat'], vec['oc'], list(clip), needed), vector=v)
     if len(clip) < 2:
         return
-    binner = FluxBinner(wngrid=oc, wngrid_width=ow)
+    binner = FluxBinner(wngrid=oc_req, wngrid_width=ow_req)
     bfull = np.asarray(binner.bindown(nat, spec)[1], dtype=float)
     sel = np.array(idx, dtype=int)
     bclip = np.asarray(binner.bindown(clip, spec[sel])[1], dtype=float)
@@ -229,22 +241,24 @@ def judge_bin(ctx, vec, rng, stats):
     for j in range(len(oc)):
         e = exact_binned(vec['wfull'][j], f)
         if e is not None:
-            ctx.verdict('binner_is_overlap_mean', close(bfull[j], float(e) / 64.0, rel=1e-11), cls='bin:full',
+            ctx.verdict('binner_is_overlap_mean', close(bfull[j], float(e) / 64.0, rel=1e-11), cls='bin:full' + osfx,
                         detail='bin %d got %r expected %r' % (j, float(bfull[j]), float(e) / 64.0), vector=v)
         if spec_clip:
             e = exact_binned(vec['wclip'][j], [f[i] for i in idx])
             if e is not None:
-                ctx.verdict('binner_is_overlap_mean', close(bclip[j], float(e) / 64.0, rel=1e-11), cls='bin:clip',
+                ctx.verdict('binner_is_overlap_mean', close(bclip[j], float(e) / 64.0, rel=1e-11), cls='bin:clip' + osfx,
                             detail='bin %d got %r expected %r' % (j, float(bclip[j]), float(e) / 64.0), vector=v)
     equal = all(same(bclip[j], bfull[j]) for j in range(len(oc)))
     if cls0 is None:
-        stats['outside'] += 1
-        stats['outside_diff'] += 0 if equal else 1
+        if first:
+            stats['outside'] += 1
+            stats['outside_diff'] += 0 if equal else 1
         return
-    stats[cls0] = stats.get(cls0, 0) + 1
-    if not equal and cls0 == BAND:
-        stats['band_diff'] += 1
-    ctx.verdict('binning_commutes', equal, cls='bin:' + cls0,
+    if first:
+        stats[cls0] = stats.get(cls0, 0) + 1
+        if not equal and cls0 == BAND:
+            stats['band_diff'] += 1
+    ctx.verdict('binning_commutes', equal, cls='bin:' + osfx[1:] + (':' if osfx else '') + cls0,
                 detail='native %r obs %r widths %r: binned(clipped) %r != binned(full) %r' %
                        (list(nat), list(oc), list(ow), [float(x) for x in bclip], [float(x) for x in bfull]), vector=v)
 
